@@ -27,6 +27,10 @@ type stepT struct {
 	GoMod   bool   `json:"go_mod_lines,omitempty"`
 	Server  string `json:"server"` // "A", "B", "A@<size>", "B@<size>", "bogus"
 	Restart bool   `json:"restart_before,omitempty"`
+	// Others: so many times during this lookup another client sharing the configuration (honest server, same
+	// log) stores the next head just before this client's WriteConfig, as long as that head is still older
+	// than the one this lookup is served: every one of this client's writes until then is a real conflict.
+	Others int `json:"other_writers_getting_in_first,omitempty"`
 }
 
 type caseT struct {
@@ -248,6 +252,30 @@ func (x *ctx) exec(c caseT) (msg string, class string, env *opsenv.Env) {
 		vers := mod.Version
 		if st.GoMod {
 			vers += "/go.mod"
+		}
+		env.Hook = nil
+		if st.Others > 0 && !bogus {
+			left := st.Others
+			env.Hook = func(op, res string) {
+				if op != "WriteConfig" || left == 0 {
+					return
+				}
+				n := 1
+				if cur := env.Config[latestFile()]; len(cur) > 0 {
+					t, err := clientx.OpenHead(cur)
+					if err != nil || int(t.N) > lg.N() || lg.Tree(int(t.N)) != t {
+						return
+					}
+					n = int(t.N) + 1
+				}
+				if n >= size {
+					return
+				}
+				left--
+				m := lg.Head(n, "real", "")
+				env.Config[latestFile()] = m
+				acc = append(acc, accepted{lg.Tree(n), m, "config write of another client"})
+			}
 		}
 		nCalls, nCW, nSec := len(env.Calls), len(env.ConfigWrites), len(env.Security)
 		cacheBefore := map[string][]byte{}
@@ -619,6 +647,7 @@ func Run(r *fw.Run) {
 		r.Merge(l)
 	})
 	r.Sample(caseT{P: 2, A: 4, B: 4, H: 2, Stored: 4, Cache: "cold", Steps: []stepT{{Rec: 0, Server: "B"}, {Rec: 2, Server: "A", Restart: true}}})
+	contendedWrites(r)
 
 	// schedules: two clients sharing one compare-and-swap configuration, fed by forked servers or by
 	// one server at different sizes, under the controlled scheduler (engine E4, see C14)
@@ -639,6 +668,60 @@ func Run(r *fw.Run) {
 		}
 		c14.RunSchedules(r, scs, cfgs, per, tot)
 	}
+}
+
+// contendedWrites: a lookup whose every configuration write meets a real conflict k times in a row (another
+// client stores the next, still older head first), for every k the log allows; afterwards the same or a
+// restarted client is shown the other log. However many conflicts there were, what the client accepted is
+// what the next client starts from.
+func contendedWrites(r *fw.Run) {
+	type world struct{ p, a, b int }
+	ws := []world{{13, 15, 16}, {34, 36, 36}}
+	if r.Thorough() {
+		ws = append(ws, world{66, 67, 69}, world{130, 133, 131})
+	}
+	r.Bounds["contended_config_writes"] = fmt.Sprintf("worlds (p,a,b) %v x heights 2,3 x stored head {none, 1} x every count of consecutive write conflicts 0..a-2 x 4 continuations", ws)
+	fw.Parallel(len(ws)*2, func(i int) {
+		w, h := ws[i/2], 2+i%2
+		x := newCtx(w.p, w.a, w.b)
+		l := fw.NewLocal()
+		defer r.Merge(l)
+		for _, stored := range []int{-1, 1} {
+			for k := 0; k <= w.a-2; k++ {
+				first := stepT{Rec: w.a - 1, Server: "A", Others: k}
+				for _, rest := range [][]stepT{
+					{{Rec: w.b - 1, Server: "B", Restart: true}},
+					{{Rec: w.a - 2, Server: "A"}, {Rec: w.b - 1, Server: "B", Restart: true}},
+					{{Rec: w.b - 1, Server: "B"}},
+					{{Rec: 0, Server: "A", Restart: true, Others: 1}, {Rec: w.p, Server: "B", Restart: true}},
+				} {
+					c := caseT{P: w.p, A: w.a, B: w.b, H: h, Stored: stored, Cache: "cold", Steps: append([]stepT{first}, rest...)}
+					msg, class, env := x.exec(c)
+					l.States++
+					l.Transitions += int64(len(c.Steps))
+					l.Execs++
+					if k > 0 {
+						// the conflicts must have happened
+						n := 0
+						for _, cw := range env.ConfigWrites {
+							if cw.Err != nil {
+								n++
+							}
+						}
+						if n >= k || n >= w.a-2 {
+							l.Nontrivial++
+						}
+					}
+					if msg != "" {
+						l.Outcomes["VIOLATION"]++
+						r.Violation(c.key(), msg, c)
+						continue
+					}
+					l.Outcomes["contended:"+class]++
+				}
+			}
+		}
+	})
 }
 
 func Replay(r *fw.Run, raw json.RawMessage) {
